@@ -39,6 +39,9 @@ func runC12(c *core.Ctx) {
 	c.Rule("C12.queue", "A3: CircularQueue (the buffer behind union sources and join sets) keeps FIFO order when it grows: unwrapped, the live segment data[head:tail] is copied to the front; wrapped, data[head:] is copied first and data[:tail] directly behind it; head becomes 0, tail the old capacity, the new element goes to that tail; Peek(i) reads (head+i) wrapped by len(data)")
 	c.Rule("C12.roles", "A7: joinGroup.newJoinset passes (node, StreamName, fill, fillValue, Names, Delimiter, Tolerance, t, diag) to newJoinset's parameters of the same roles, and newJoinset stores each parameter in the field of its role")
 
+	c.Rule("C12.oldest", "A3: F47: joinGroup.oldestTime stays a key of g.sets: every store of a non-zero time into it is the key of an enclosing range over g.sets or comes with a store g.sets[<that time>] = … in the same method (emit dereferences g.sets[g.oldestTime])")
+	c.Rule("C12.onflush", "A2: F48: every JoinNode buffer whose entries matchPoints may send alone (sendSpecificPoint on a Peek of it) is sent and dequeued by JoinNode.Finish")
+	c.Rule("C12.lowmark", "A1: F49: in matchPoints' loop over all parents the low mark map is read with comma-ok and a parent without an entry for the group leaves the loop (blocks purging) instead of contributing the zero time")
 	c.Rule("C12.bucket", "A7: every place in the join (JoinNode, joinGroup, joinset methods) that maps a timestamp to its tolerance bucket uses the same time.Time method (Round): a site that buckets differently (Truncate) compares times that the other sites made, so whether two points meet depends on which parent was read first")
 
 	root := c.P.Pkg("")
@@ -54,6 +57,8 @@ func runC12(c *core.Ctx) {
 	c12Passed(c, root)
 	c12Queue(c, root)
 	c12Bucket(c, root)
+	c12Oldest(c, root)
+	c12OnBuffers(c, root)
 }
 
 func c12Consumer(c *core.Ctx, edge *packages.Package) {
@@ -1013,4 +1018,228 @@ func c12Bucket(c *core.Ctx, root *packages.Package) {
 		c.Check(st.method == major, "C12.bucket", st.cons, st.pos, "this site buckets the time with %s while the other %d sites use %s: a point in the upper half of a tolerance interval lands in another bucket here than where its partner was filed, so the pair is found only under one arrival order (inner join drops it, outer join emits a filled row)", st.method, count[major], major)
 	}
 	c.Floor("C12.bucket", "tolerance bucketing sites in the join", len(sites), 7)
+}
+
+// c12Oldest: F47. emit reads g.sets[g.oldestTime] and dereferences it whenever sets is not empty, so oldestTime must be a key of
+// sets. Every store of a non-zero time into joinGroup.oldestTime is therefore the key of an enclosing range over g.sets, or is
+// accompanied, in the same method, by a store g.sets[<that time>] = … (the set list is created when it is missing).
+func c12Oldest(c *core.Ctx, root *packages.Package) {
+	info := root.TypesInfo
+	n := 0
+	for _, f := range core.AllFuncs(root) {
+		if core.RecvName(f.Decl) != "joinGroup" {
+			continue
+		}
+		// range statements over the sets map, with their key variables
+		rangeKeys := map[types.Object]bool{}
+		created := map[types.Object]bool{}
+		ast.Inspect(f.Decl.Body, func(nd ast.Node) bool {
+			switch x := nd.(type) {
+			case *ast.RangeStmt:
+				if an.FieldSel(info, x.X, "joinGroup", "sets") {
+					if id, ok := x.Key.(*ast.Ident); ok {
+						if o := info.Defs[id]; o != nil {
+							rangeKeys[o] = true
+						}
+					}
+				}
+			case *ast.AssignStmt:
+				for _, l := range x.Lhs {
+					if ix, ok := ast.Unparen(l).(*ast.IndexExpr); ok && an.FieldSel(info, ix.X, "joinGroup", "sets") {
+						if id, ok := ast.Unparen(ix.Index).(*ast.Ident); ok {
+							created[info.Uses[id]] = true
+						}
+					}
+				}
+			}
+			return true
+		})
+		ast.Inspect(f.Decl.Body, func(nd ast.Node) bool {
+			as, ok := nd.(*ast.AssignStmt)
+			if !ok {
+				return true
+			}
+			for i, l := range as.Lhs {
+				if !an.FieldSel(info, l, "joinGroup", "oldestTime") || i >= len(as.Rhs) {
+					continue
+				}
+				n++
+				rhs := ast.Unparen(as.Rhs[i])
+				cons := "joinGroup." + f.Decl.Name.Name + "#oldestTime"
+				if cl, ok := rhs.(*ast.CompositeLit); ok && len(cl.Elts) == 0 {
+					c.Ok("C12.oldest", cons+"=zero")
+					continue
+				}
+				id, ok := rhs.(*ast.Ident)
+				good := ok && (rangeKeys[info.Uses[id]] || created[info.Uses[id]])
+				c.Check(good, "C12.oldest", cons, as.Pos(), "joinGroup.%s stores %s into oldestTime without that time being a key of g.sets (it is neither the key of a range over g.sets nor given a set list by a store g.sets[…] = … in this method): the next emit reads g.sets[g.oldestTime], gets nil and dereferences it — a barrier between two points kills the task with a nil pointer panic", f.Decl.Name.Name, types.ExprString(rhs))
+			}
+			return true
+		})
+	}
+	c.Floor("C12.oldest", "stores into joinGroup.oldestTime", n, 3)
+}
+
+// c12OnBuffers: F48/F49, the join on dimensions. (a) A buffer whose entries matchPoints may send alone (sendSpecificPoint on a
+// Peek of it) holds points that have not reached any group yet: Finish must send and dequeue what is left in it. (b) In the loop
+// that takes the minimum low mark over all parents, a parent without an entry for the group must block purging: the map is read
+// with comma-ok and the miss leaves the loop (a single-value read yields the zero time, which the minimum takes for "unset").
+func c12OnBuffers(c *core.Ctx, root *packages.Package) {
+	info := root.TypesInfo
+	mp := c.Need("C12.onflush", "", "JoinNode", "matchPoints")
+	fin := c.Need("C12.onflush", "", "JoinNode", "Finish")
+	if mp == nil || fin == nil {
+		return
+	}
+	// (a) fields whose queue elements are sent alone
+	fieldOf := func(e ast.Expr) string {
+		for {
+			switch x := ast.Unparen(e).(type) {
+			case *ast.IndexExpr:
+				e = x.X
+			case *ast.SelectorExpr:
+				if s, ok := info.Selections[x]; ok && s.Kind() == types.FieldVal {
+					if nn := core.NamedOf(s.Recv()); nn != nil && nn.Obj().Name() == "JoinNode" {
+						return x.Sel.Name
+					}
+				}
+				return ""
+			default:
+				return ""
+			}
+		}
+	}
+	alone := func(fn *core.Func) map[string]bool {
+		// locals bound to a buffer field, locals bound to a Peek of such a local
+		buf := map[types.Object]string{}
+		elem := map[types.Object]string{}
+		out := map[string]bool{}
+		for round := 0; round < 3; round++ {
+			ast.Inspect(fn.Decl.Body, func(nd ast.Node) bool {
+				switch x := nd.(type) {
+				case *ast.AssignStmt:
+					if len(x.Lhs) == len(x.Rhs) {
+						for i, l := range x.Lhs {
+							id, ok := l.(*ast.Ident)
+							if !ok {
+								continue
+							}
+							o := info.Defs[id]
+							if o == nil {
+								o = info.Uses[id]
+							}
+							if fld := fieldOf(x.Rhs[i]); fld != "" {
+								buf[o] = fld
+							}
+							if call, ok := ast.Unparen(x.Rhs[i]).(*ast.CallExpr); ok {
+								if sel, ok := call.Fun.(*ast.SelectorExpr); ok && sel.Sel.Name == "Peek" {
+									if rid, ok := ast.Unparen(sel.X).(*ast.Ident); ok && buf[info.Uses[rid]] != "" {
+										elem[o] = buf[info.Uses[rid]]
+									}
+								}
+							}
+						}
+					}
+				case *ast.RangeStmt:
+					if fld := fieldOf(x.X); fld != "" {
+						if id, ok := x.Value.(*ast.Ident); ok && x.Value != nil {
+							buf[info.Defs[id]] = fld
+						}
+					}
+				case *ast.CallExpr:
+					if m := core.Callee(info, x); m != nil && m.Name() == "sendSpecificPoint" && len(x.Args) == 1 {
+						a := ast.Unparen(x.Args[0])
+						if id, ok := a.(*ast.Ident); ok && elem[info.Uses[id]] != "" {
+							out[elem[info.Uses[id]]] = true
+						}
+						if call, ok := a.(*ast.CallExpr); ok {
+							if sel, ok := call.Fun.(*ast.SelectorExpr); ok && sel.Sel.Name == "Peek" {
+								if rid, ok := ast.Unparen(sel.X).(*ast.Ident); ok && buf[info.Uses[rid]] != "" {
+									out[buf[info.Uses[rid]]] = true
+								}
+							}
+						}
+					}
+				}
+				return true
+			})
+		}
+		return out
+	}
+	need := alone(mp)
+	have := alone(fin)
+	c.Floor("C12.onflush", "buffers whose entries matchPoints may send alone", len(need), 1)
+	for _, fld := range an.SortedKeys(need) {
+		dq := false
+		ast.Inspect(fin.Decl.Body, func(nd ast.Node) bool {
+			if call, ok := nd.(*ast.CallExpr); ok {
+				if sel, ok := call.Fun.(*ast.SelectorExpr); ok && sel.Sel.Name == "Dequeue" {
+					dq = true
+				}
+			}
+			return true
+		})
+		c.Check(have[fld] && dq, "C12.onflush", "JoinNode.Finish#"+fld, fin.Decl.Pos(), "matchPoints caches points in JoinNode.%s and sends them alone once no match can arrive; Finish neither sends nor dequeues what is still cached there (sends: %v, dequeues: %v): with a fill, the last unmatched specific point of every join group is lost when the parents end (end of a replay, a batch task, a stopped task)", fld, have[fld], dq)
+	}
+	// (b)
+	nReads := 0
+	ast.Inspect(mp.Decl.Body, func(nd ast.Node) bool {
+		fs, ok := nd.(*ast.ForStmt)
+		if !ok {
+			return true
+		}
+		ast.Inspect(fs.Body, func(m ast.Node) bool {
+			ix, ok := m.(*ast.IndexExpr)
+			if !ok || !an.FieldSel(info, ix.X, "JoinNode", "lowMarks") {
+				return true
+			}
+			nReads++
+			// the read must be the sole RHS of a two-value assignment whose ok is tested with a loop exit
+			commaOK, exits := false, false
+			var okObj types.Object
+			ast.Inspect(fs.Body, func(k ast.Node) bool {
+				if as, ok := k.(*ast.AssignStmt); ok && len(as.Lhs) == 2 && len(as.Rhs) == 1 && ast.Unparen(as.Rhs[0]) == ix {
+					commaOK = true
+					if id, ok := as.Lhs[1].(*ast.Ident); ok {
+						okObj = info.Defs[id]
+						if okObj == nil {
+							okObj = info.Uses[id]
+						}
+					}
+				}
+				return true
+			})
+			if commaOK && okObj != nil {
+				ast.Inspect(fs.Body, func(k ast.Node) bool {
+					is, ok := k.(*ast.IfStmt)
+					if !ok {
+						return true
+					}
+					un, ok := ast.Unparen(is.Cond).(*ast.UnaryExpr)
+					if !ok || un.Op != token.NOT {
+						return true
+					}
+					if id, ok := ast.Unparen(un.X).(*ast.Ident); !ok || info.Uses[id] != okObj {
+						return true
+					}
+					ast.Inspect(is.Body, func(b ast.Node) bool {
+						switch y := b.(type) {
+						case *ast.BranchStmt:
+							if y.Tok == token.BREAK {
+								exits = true
+							}
+						case *ast.ReturnStmt:
+							exits = true
+						}
+						return true
+					})
+					return true
+				})
+			}
+			c.Check(commaOK && exits, "C12.lowmark", "JoinNode.matchPoints#all-parents", ix.Pos(), "the minimum low mark over all parents reads n.lowMarks with a single-value read or does not stop at a parent without an entry (comma-ok: %v, miss leaves the loop: %v): the missing parent's zero time is taken for 'unset' when it is the first parent, the low mark becomes the other parent's time and cached specific points are sent alone before their match arrives — the result depends on which parent is numbered first and on the interleaving", commaOK, exits)
+			return true
+		})
+		return true
+	})
+	c.Floor("C12.lowmark", "reads of lowMarks in the all-parents loop", nReads, 1)
 }
